@@ -172,6 +172,7 @@ func (b *mailbox) signal() {
 func (c *routerCore) receiveFrom(ctx context.Context, correlationID string, froms []sharing.ID) (map[sharing.ID][]byte, error) {
 	expected := hashset.NewComparable(froms...)
 
+	ctx = c.verifCall(ctx, correlationID, froms)
 	c.verifGate(ctx, "en")
 	c.mu.Lock()
 	if c.fatal != nil {
